@@ -34,10 +34,10 @@ CHECKS = {
     note="Exhaustive over the finite tables (exhaustive:true); name variants and cells are sampled.", ref="4/C04"),
  "C05": dict(technique="Hypothesis PBT per space-group setting against brute-force reciprocal-lattice enumeration with operator extinction; scan model to recognise known finding K1",
     text="All 237 settings in every run; conforming cells incl. orthogonal-metric triclinic/monoclinic ones, shells whose bounds are mid-gap between lattice sin(theta)/lambda values, by name and by number, two numpy seeds, both modules. genhkl_all must equal the oracle set exactly (no extra, missing, repeated rows), be RNG independent, and match between hexagonal and rhombohedral settings under the obverse transformation. 9.5k cases quick, 95k thorough.",
-    note="Known finding K1 (early-exit scan in Laue -1, 2/m, rhombohedral -3/-3m) is reported only when no member of the missing reflection's Laue orbit is visited by an independent model of the documented scan; any other difference in those classes is a violation.", ref="4/C05"),
+    note="The early-exit scan defect (former known finding K1) was repaired in /repo (fix: bcdf686); a regression to it is classified by an independent model of the documented scan (bucket K1-scan-early-exit/*) and reported as a violation.", ref="4/C05"),
  "C06": dict(technique="Hypothesis PBT per setting: Laue-orbit partition, union, sortedness, metric-oracle stl column, boundary metamorphic re-calls",
     text="genhkl_unique rows have pairwise disjoint Laue orbits whose union is exactly genhkl_all, every row is an allowed reflection of the shell and every allowed family is represented (K1 as in C05), column 4 equals the metric-tensor sin(theta)/lambda (1e-12) and is non-decreasing, rows identical with/without output_stl, sintlmax inclusive / sintlmin exclusive by re-calling with a returned row's own sintl.",
-    note="Boundary re-calls only in Laue classes whose scan is complete; K1 handled by the same predicate as C05.", ref="4/C06"),
+    note="Former known finding K1 repaired (fix: bcdf686); a regression is classified by the same scan-model predicate as in C05 and reported as a violation.", ref="4/C06"),
  "C07": dict(technique="Hypothesis PBT per setting: metamorphic relation F(hR) = F(h) exp(-2 pi i h.t), extinction, Friedel",
     text="All 237 settings by name (case/blank variants); general-position atoms with Uiso / positive-definite Uani / no ADP and any element; transformation law, |F| over the orbit, F=0 for operator-extinct reflections, Friedel pairs. Tolerance is a rigorous bound from the 6-digit rounding of tabulated thirds/sixths plus 1e-9 of the total scattering power.",
     note="Relation derived from the group law (R,t)(R_j,t_j); rounding allowance 4 pi sum(occ f0) nsymop |h|_1 delta.", ref="4/C07"),
@@ -70,8 +70,8 @@ PENDING = {}
 COMMON = (" Every generated case also carries history and boundary elements where they apply: read-only array arguments, one caller-held object reused "
           "in place for a previous input, results of earlier calls re-verified after later ones, an earlier call repeated later in the process must "
           "give the same value, exact special values and values 1e-12..1e-2 away from them, integer / float32 / list-vs-array typing of the same "
-          "values. Sensitivity: all 120 independently seeded changes of this property family (seeded/, 6 per property) and every reverted fix: commit "
-          "make the quick check exit 1; quiet on VERIF_SEED 0-7, 11-13, 21-24 on the unchanged tree.")
+          "values. Sensitivity: all 200 independently seeded changes (seeded/, 10 per property; 3 obsoleted by a later repair) and every reverted fix: commit "
+          "make the quick check exit 1; quiet on VERIF_SEED 0-7, 11-13, 21-24, 31-33 on the unchanged tree.")
 
 def main():
     props = [json.loads(l) for l in open(os.path.join(HERE, "properties.jsonl"))]
